@@ -104,9 +104,9 @@ fn is_acyclic(n: usize, edges: &[(usize, usize)]) -> bool {
 }
 
 /// Every labelled DAG on `n <= 3` nodes: 1 + 1 + 3 + 25 = 30 graphs.
-fn small_dags() -> Vec<(usize, Vec<(usize, usize)>)> {
+fn small_dags(max_n: usize) -> Vec<(usize, Vec<(usize, usize)>)> {
     let mut out = Vec::new();
-    for n in 0..=3usize {
+    for n in 0..=max_n {
         let mut pairs = Vec::new();
         for a in 0..n {
             for b in 0..n {
@@ -563,16 +563,28 @@ fn subsets_nonempty(n: usize) -> Vec<Vec<usize>> {
 }
 
 fn gen_exh(g: &mut Gen) {
-    for (n, edges) in small_dags() {
+    // thorough: also every labelled DAG on 4 nodes (543), with a reduced set of configurations
+    let max_n = match g.tier {
+        Tier::Quick => 3,
+        Tier::Thorough => 4,
+    };
+    for (n, edges) in small_dags(max_n) {
         let ops = plain_ops(n, &edges);
         let mut graph = must_build(&ops);
+        let full = n <= 3;
 
         // (ord, with): `with=0` exists only for ord=f.
         let ord_with = [(false, false), (false, true), (true, true)];
 
         // All completion orders, all ok.
         for api in Api::ALL {
+            if !full && !matches!(api, Api::ForEach | Api::Fold) {
+                continue;
+            }
             for mutable in [false, true] {
+                if !full && mutable {
+                    continue;
+                }
                 for (rev, with) in ord_with {
                     let mut cfg = CallCfg::plain(api);
                     cfg.mutable = mutable;
@@ -586,7 +598,7 @@ fn gen_exh(g: &mut Gen) {
         }
 
         // Failing subsets for the try APIs.
-        if n >= 1 {
+        if n >= 1 && full {
             for (api, ctl) in [
                 (Api::TryFold, false),
                 (Api::TryForEach, false),
@@ -624,6 +636,9 @@ fn gen_exh(g: &mut Gen) {
 
         // One interrupt at every position of the canonical completion order.
         for api in [Api::ForEach, Api::TryForEach, Api::Fold] {
+            if !full && api != Api::ForEach {
+                continue;
+            }
             for rev in [false, true] {
                 for strat in [
                     Strat::Fin,
@@ -632,6 +647,9 @@ fn gen_exh(g: &mut Gen) {
                     Strat::Pn(0),
                     Strat::Ign,
                 ] {
+                    if !full && !matches!(strat, Strat::Fin | Strat::Pn(1)) {
+                        continue;
+                    }
                     for incl in [false, true] {
                         let mut cfg = CallCfg::plain(api);
                         cfg.with = true;
@@ -658,6 +676,9 @@ fn gen_exh(g: &mut Gen) {
         // Limits.
         for lim in [1usize, 2] {
             for mutable in [false, true] {
+                if !full && mutable {
+                    continue;
+                }
                 for rev in [false, true] {
                     let mut cfg = CallCfg::plain(Api::ForEach);
                     cfg.mutable = mutable;
@@ -1082,7 +1103,7 @@ fn gen_sexh(g: &mut Gen) {
     // (ops, cfg, sequence) candidates for the `x` insertion below: reservoir of 20.
     let mut reservoir: Vec<(Vec<Op>, StreamCfg, Vec<SEv>)> = Vec::new();
     let mut seen = 0usize;
-    for (n, edges) in small_dags() {
+    for (n, edges) in small_dags(3) {
         let ops = plain_ops(n, &edges);
         let graph = must_build(&ops);
         for rev in [false, true] {
